@@ -148,3 +148,79 @@ def has_panic_path(fn, allow=()):
                 if any(x in r for x in ("panicking::", "::unwrap", "::expect", "unwrap_failed", "slice_index", "index::Index")) and not any(path_is(r, a) for a in allow):
                     bad.append((f, i, "call:" + r))
     return bad
+
+
+def bool_switches(body):
+    """Yields (bb, discr-sym, true_target, false_target) for every two-way switch on a bool."""
+    sy = Sym(body.fn)
+    for i in range(body.n):
+        t = body.term(i)
+        if t["k"] != "switch" or t.get("dty") != "bool":
+            continue
+        arms = {a["v"]: a["bb"] for a in t["arms"]}
+        if 0 in arms:
+            f_t = arms[0]
+            t_t = arms.get(1, t["otherwise"])
+        elif 1 in arms:
+            t_t = arms[1]
+            f_t = t["otherwise"]
+        else:
+            continue
+        yield i, sy.operand(t["discr"]), t_t, f_t
+
+
+def variant_edges(body, bb):
+    """{variant-or-value: target} (+ 'otherwise') for a switch terminator."""
+    return dict(body.switch_edges(bb))
+
+
+def field_accesses(crate, adt_path, field):
+    """All MIR places in the crate that project field `field` out of type `adt_path`:
+    yields (fn, bb, stmt-or-term, is_write)."""
+    out = []
+
+    def scan_place(fn, bb, node, p, write):
+        for e in p.get("pr") or []:
+            if isinstance(e, dict) and e.get("f") == field and strip_generics(e.get("of", "")) == adt_path:
+                out.append((fn, bb, node, write))
+
+    def scan_op(fn, bb, node, op):
+        p = op.get("copy") or op.get("move")
+        if p:
+            scan_place(fn, bb, node, p, False)
+
+    for fn in crate.fns:
+        b = fn.body
+        for i, blk in enumerate(b.blocks):
+            for s in blk["s"]:
+                if s["k"] != "assign":
+                    continue
+                scan_place(fn, i, s, s["p"], True)
+                rv = s["rv"]
+                for key in ("a", "b"):
+                    if key in rv and isinstance(rv[key], dict):
+                        scan_op(fn, i, s, rv[key])
+                if "p" in rv:
+                    scan_place(fn, i, s, rv["p"], rv["k"] in ("ref", "rawptr") and rv.get("mut", False))
+                for o in rv.get("ops", []):
+                    scan_op(fn, i, s, o)
+            t = blk.get("t") or {}
+            for o in t.get("args", []):
+                scan_op(fn, i, t, o)
+            if "dest" in t:
+                scan_place(fn, i, t, t["dest"], True)
+            if t.get("k") == "drop":
+                scan_place(fn, i, t, t["p"], False)
+            if "discr" in t:
+                scan_op(fn, i, t, t["discr"])
+    return out
+
+
+def aggregates(fn, adt_suffix, variant=None):
+    """Aggregate constructions of the ADT in the region: (fn, bb, stmt-index, stmt)."""
+    out = []
+    for f in fn.region():
+        for i, k, s in f.body.stmts():
+            if s["k"] == "assign" and s["rv"]["k"] == "agg" and path_is(s["rv"].get("adt"), adt_suffix) and (variant is None or s["rv"].get("variant") == variant):
+                out.append((f, i, k, s))
+    return out
